@@ -93,7 +93,7 @@ def run_c07(tier, replay=None):
             "direction1": {"par_call_events": calls, "concurrent_use_events": conc, "calls_expected_parallel": par,
                            "calls_observed_on_2_or_more_threads": multi, "hook_events_validated_as_ParMap_steps": hook_events,
                            "binding_lost": len(lost), "binding_lost_lines": lost[:5], "failed_checks": fails,
-                           "pool_sizes": "2..16" if tier == "thorough" else "2,3,4,8,16", "functions": ["all_pairs", "multi_source", "get_all_shortest_paths_involving", "betweenness_centrality", "closeness_centrality", "all_pairs(target)", "all_pairs(cutoff, first_only)", "multi_source(subset, target, cutoff)"]},
+                           "pool_sizes": "2..16" if tier == "thorough" else "2,3,4,8,16", "functions": ["all_pairs", "multi_source", "get_all_shortest_paths_involving", "betweenness_centrality", "closeness_centrality", "all_pairs(target)", "all_pairs(cutoff, first_only)", "multi_source(subset, target, cutoff)", "get_all_shortest_paths_involving(every node)", "all_pairs(distances only)", "all_pairs(target, distances only)", "all_pairs(target, first_only)", "all_pairs(cutoff, distances only)", "multi_source(target, distances only)"]},
             "explanation": "ParMap is exhaustive for the model (all interleavings of k workers over n items). Real rayon schedules cannot be "
                            "controlled, so they are sampled: each function is run repeatedly inside ThreadPool::install for each pool size on graphs "
                            "with 21-60 nodes (tie-heavy unweighted; non-dyadic weights) and compared bit for bit with the pool-of-1 (serial path) "
